@@ -17,6 +17,7 @@ from ..engine import pattern as pm
 from ..engine.facts import dotted, const, src, walk_func, str_value, enclosing_stmt, ancestors
 from . import skeletons as sk
 from . import c05  # declares-order is registered for C08 there
+from . import c18  # module-encoding (module-directory path writes what it declares) is registered for C08 there
 from .common import calls, stmt_nodes, param_names, kwmap
 
 
